@@ -450,6 +450,12 @@ fn anon_case(rep: &mut Report, rng: &mut Rng, i: u64) {
                 let c = rng.usize_below(n_ap);
                 e.apid = DltChar4::from_buf(format!("A{:03}", (a * 7) % 1000).as_bytes());
                 e.ctid = DltChar4::from_buf(format!("{:04}", (c * 13) % 10000).as_bytes());
+                // 1/10: a log message without any payload (verbose, no arguments)
+                if rng.chance(1, 10) {
+                    m.payload.clear();
+                    e.noar = 0;
+                    e.verb_mstp_mtin |= 1;
+                }
             }
         }
     }
